@@ -42,7 +42,7 @@ pub open spec fn consts_match<B: BlockProvider, N: NotificationService, P: Payme
 //@ ensures#frame
       ds_hash_unchanged(*old(w), *final(w)) && final(w).faulted == old(w).faulted && !final(w).lock_held
       && rely_env(World { released: true, resolved: final(w).resolved, received_read: final(w).received_read,
-                          min_expiry_read: final(w).min_expiry_read, ..*old(w) }, *final(w))
+                          min_expiry_read: final(w).min_expiry_read, height_at_init: final(w).height_at_init, ..*old(w) }, *final(w))
       && (!live(*old(w)) && !old(w).pay_running ==> !live(*final(w)))
 //@ proof body_end
       ghost_set_resolved(w, resp_abs(resp));
